@@ -102,6 +102,9 @@ def enc_op(op):
         return "remove %d %s" % (op[1], enc_aref(op[2]))
     if k in ("reverse", "sort", "clear", "drop"):
         return "%s %d" % (k, op[1])
+    if k == "ctor":
+        lat = "_" if op[2] is None else ("new" if op[2][0] == "new" else "of %d" % op[2][1])
+        return "ctor %s %s" % ("N" if op[1] is None else enc_iter(op[1]), lat)
     raise ValueError(op)
 
 
@@ -128,6 +131,8 @@ def opname(op):
         return "setlat:%s" % op[2][0]
     if k == "pickle":
         return "pickle:%d" % op[2]
+    if k == "ctor":
+        return "ctor:%s:%s" % ("N" if op[1] is None else op[1][0], "_" if op[2] is None else op[2][0])
     return k
 
 
@@ -206,6 +211,11 @@ class PlainRun:
             return "ok"
         if k == "mkstru":
             return self._new([])
+        if k == "ctor":
+            vals = [] if op[1] is None else self.iter(op[1])
+            if op[2] is not None and op[2][0] == "of":
+                self.L(op[2][1])
+            return self._new(list(vals))
         lst = self.L(op[1])
         if k == "addnew":
             lst.append(op[2])
@@ -427,6 +437,22 @@ class ImplRun:
             return "ok"
         if k == "mkstru":
             return self._new(self.PDFFitStructure() if op[1] else self.Structure())
+        if k == "ctor":
+            # Structure(atoms, lattice=L) / PDFFitStructure(...) / title=...
+            form = op[3] if len(op) > 3 else 0
+            cls = self.PDFFitStructure if form % 2 else self.Structure
+            kw = {}
+            args = []
+            if op[1] is not None:
+                objs = self.iter_objs(op[1])
+                args.append(self.iter_arg(op[1], objs))
+            if op[2] is not None:
+                kw["lattice"] = self.Lattice(3.5, 4.5, 5.5, 85.0, 95.0, 105.0) if op[2][0] == "new" else self.S(op[2][1]).lattice
+            if form >= 2:
+                kw["title"] = "built by the constructor"
+            if args and form == 4:
+                kw["atoms"] = args.pop()
+            return self._new(cls(*args, **kw))
         s = self.S(op[1])
         if k == "addnew":
             s.addNewAtom("C", xyz=[0.5, 0.5, 0.5], label="L%d" % op[2])
@@ -598,7 +624,7 @@ class ImplRun:
                     post_bad[(h, id(a))] = a.payload
         new_bad = sorted((h, p) for (h, i), p in post_bad.items() if (h, i) not in pre["bad"] and i not in pre["conf"])
         if new_bad:
-            tgt = op[1] if len(op) > 1 and k not in ("mkatom", "mkstru") else None
+            tgt = op[1] if len(op) > 1 and k not in ("mkatom", "mkstru", "ctor") else None
             where = "structure(s) %s, payload(s) %s" % (sorted(set(h for h, _ in new_bad)), [p for _, p in new_bad][:6])
             failed = out in ("IndexError", "ValueError", "TypeError")
             if k == "setlat":
@@ -609,6 +635,10 @@ class ImplRun:
                 key = "shared-nocopy-lattice" + (":failed-op" if failed else "")
                 what = "%s with copy=False took an atom that another live structure holds; %s now refer to the lattice of structure %s%s" % (
                     k, where, tgt, " (and the operation raised %s)" % out if failed else "")
+            elif k == "ctor" and op[1] is not None and op[1][0] != "S":
+                key = "extend-default-adopts-foreign-atom:ctor"
+                what = "Structure(<%s of atoms>) took over atoms of another live structure without copying; %s now refer to the lattice of the new structure" % (
+                    {"L": "list", "G": "generator", "T": "tolist()", "GS": "generator"}[op[1][0]], where)
             elif k == "extend" and op[3] == "d" and op[2][0] != "S":
                 key = "extend-default-adopts-foreign-atom"
                 what = "extend() with the default copy flag and a plain %s appended atoms of another live structure without copying; %s now refer to the lattice of structure %s" % (
@@ -629,6 +659,16 @@ class ImplRun:
                 self.fail("copy-shares-atom:%s" % name, "result of %s shares atom(s) %r with its operands" % (name, shared[:6]))
             if any(res.lattice is L for L in pre["lats"].values()):
                 self.fail("copy-shares-lattice:%s" % name, "result of %s shares the lattice object with a live structure" % name)
+        if k == "ctor" and res is not None:
+            if op[1] is not None and op[1][0] == "S":
+                shared = [a.payload for a in list.__iter__(res) if id(a) in pre["ids"]]
+                if shared:
+                    self.fail("copy-shares-atom:%s" % name, "copy construction shares atom(s) %r with its source" % (shared[:6],))
+            if op[2] is not None and op[2][0] == "of":
+                if res.lattice is not pre["lats"].get(op[2][1]):
+                    self.fail("ctor-lattice:%s" % name, "the new structure does not refer to the lattice object passed as lattice=")
+            elif any(res.lattice is L for L in pre["lats"].values()):
+                self.fail("copy-shares-lattice:%s" % name, "constructor result shares the lattice object with a live structure")
         copying = (k in ("append", "insert") and op[-1] in ("d", "y")) or (k == "extend" and (op[3] == "y" or (op[3] == "d" and op[2][0] == "S"))) \
             or k in ("iadd", "imul") or (k == "set" and op[4])
         if copying and out == "ok":
@@ -679,6 +719,8 @@ class ImplRun:
                 continue
             if h in pre["dup"]:
                 before = pre["dup"][h]
+            elif k == "ctor":   # copy construction and the default extend never keep a duplicate
+                before = False
             else:   # a new structure: inherits the status of its source
                 before = pre["dup"].get(op[1], False) if len(op) > 1 else False
             if not before and not asked:
@@ -838,14 +880,14 @@ class Gen:
         ("append", 6), ("insert", 6), ("extend", 9), ("get", 12), ("set", 5), ("setsl", 9), ("del", 3), ("delsl", 4),
         ("add", 4), ("iadd", 4), ("sub", 4), ("isub", 4), ("mul", 3), ("imul", 3), ("copy", 4), ("pickle", 3),
         ("deepcopy", 1), ("setlat", 5), ("pop", 2), ("remove", 2), ("reverse", 1), ("sort", 1), ("clear", 1),
-        ("drop", 1), ("mkatom", 2), ("addnew", 2), ("mkstru", 1),
+        ("drop", 1), ("mkatom", 2), ("addnew", 2), ("mkstru", 1), ("ctor", 6),
     ]
 
     def op(self, run):
         lens = self.lens(run)
         kinds = [k for k, w in self.WEIGHTS for _ in range(w)]
         k = self.rng.choice(kinds)
-        if len(lens) >= 7 and k in ("get", "add", "sub", "mul", "copy", "pickle", "deepcopy", "mkstru"):
+        if len(lens) >= 7 and k in ("get", "add", "sub", "mul", "copy", "pickle", "deepcopy", "mkstru", "ctor"):
             k = self.rng.choice(["drop", "drop", "append", "setsl", "extend", "isub", "setlat"])
         if not lens:
             return ("mkstru", self.rng.randrange(2))
@@ -858,6 +900,17 @@ class Gen:
             return ("mkatom", self.fresh())
         if k == "mkstru":
             return ("mkstru", self.rng.randrange(2))
+        if k == "ctor":
+            r = self.rng.random()
+            if r < 0.55:
+                src = ("S", h)                     # copy construction
+            elif r < 0.9:
+                src = self.iter_(lens, run, h)
+            else:
+                src = None
+            r = self.rng.random()
+            lat = None if r < 0.25 else (("new",) if r < 0.65 else ("of", self.pick_h(lens)))
+            return ("ctor", src, lat, self.rng.randrange(5))
         if k == "addnew":
             return ("addnew", h, self.fresh())
         if k == "append":
@@ -969,6 +1022,14 @@ def corpus():
                 ("sort", 0), ("clear", 0), ("del", 0, 0), ("delsl", 0, (None, None, 2))],
         two + [("remove", 0, ("M", 1, 0)), ("delsl", 0, (None, None, -2)), ("del", 1, -2), ("del", 1, 4), ("reverse", 0), ("sort", 0),
                ("mkatom", 50), ("append", 0, ("P", 0), "n"), ("append", 1, ("P", 0), "n"), ("drop", 1)],
+        # constructor argument forms; insertions afterwards must use the same lattice as the copied atoms
+        two + [("ctor", ("S", 0), ("new",), 0), ("append", 2, ("M", 1, 0), "d"), ("ctor", ("S", 0), ("of", 1), 1), ("addnew", 3, 40),
+               ("ctor", ("S", 1), None, 2), ("ctor", ("S", 0), ("new",), 3), ("extend", 5, ("S", 1), "d"), ("ctor", ("S", 0), ("of", 0), 4)],
+        two + [("mkatom", 60), ("mkatom", 61), ("ctor", ("L", [("P", 0), ("P", 1), ("P", 0)]), ("new",), 0), ("ctor", ("G", [("P", 1)]), ("of", 0), 1),
+               ("ctor", None, ("of", 1), 0), ("ctor", None, ("new",), 3), ("ctor", None, None, 2), ("ctor", ("L", []), ("new",), 0),
+               ("ctor", ("S", 9), ("new",), 0), ("ctor", ("S", 0), ("of", 9), 0), ("ctor", ("L", [("M", 0, 7)]), None, 0)],
+        two + [("ctor", ("T", 1), ("new",), 0)],
+        two + [("ctor", ("GS", 0), None, 1), ("ctor", ("S", 0), ("new",), 0), ("setlat", 3, ("new",)), ("imul", 3, 2)],
         # lattice sharing between structures
         two + [("setlat", 1, ("of", 0)), ("append", 1, ("M", 0, 0), "n"), ("copy", 0, 2), ("copy", 1, 3), ("setlat", 0, ("new",))],
     ]
@@ -1055,6 +1116,8 @@ def run(ck):
     g = Gen(ck.rng, maxlen)
     histories, impl_obs, oracle_fail = [], [], []
     hist_kinds = {}
+    strata = {"mul_n<=0": 0, "rmul_n<=0": 0, "imul_n<=0": 0, "index_repeated_entry": 0,
+              "ctor_copy_with_lattice": 0, "ctor_iterable_with_lattice": 0}
     nsteps = 0
     for ops in corpus():
         r, obs = run_impl(ops, oracle=True)
@@ -1080,6 +1143,21 @@ def run(ck):
         nsteps += len(ops)
         for op in ops:
             hist_kinds[opname(op)] = hist_kinds.get(opname(op), 0) + 1
+            # argument strata that must stay in the generated set
+            if op[0] == "mul" and op[2] <= 0:
+                strata["mul_n<=0" if op[2] % 2 == 0 else "rmul_n<=0"] += 1
+            if op[0] == "imul" and op[2] <= 0:
+                strata["imul_n<=0"] += 1
+            if op[0] == "get" and op[2][0] in ("a", "t", "k") and len(op[2][1]) != len(set(map(repr, op[2][1]))):
+                strata["index_repeated_entry"] += 1
+            if op[0] == "ctor" and op[1] is not None and op[1][0] == "S" and op[2] is not None:
+                strata["ctor_copy_with_lattice"] += 1
+            if op[0] == "ctor" and op[1] is not None and op[1][0] != "S" and op[2] is not None:
+                strata["ctor_iterable_with_lattice"] += 1
+    ck.coverage["strata"] = strata
+    for k_, v_ in strata.items():
+        if v_ == 0:
+            raise common.Broken("generator no longer produces the stratum %s" % k_)
     # model side: one driver call for all histories
     mobs = model_obs(histories)
     sobs = model_obs(histories, "world.spec")
